@@ -392,7 +392,7 @@ func (s *fsShadow) update(op fsOp, rep fsRep) {
 }
 
 var fsDirs = []string{"d1", "d2", "dir.3", "d", "d11", "dir"} // some are proper prefixes of others
-var fsNames = []string{"a", "b", "a.tmp", "c", "x.y", "long-name_0123456789", "b.tmp", "ab", "a.tmp.tmp"}
+var fsNames = []string{"a", "b", "a.tmp", "c", "x.y", "long-name_0123456789", "b.tmp", "ab", "a.tmp.tmp", ".lock", "..b", "-x", "~"}
 
 func randUnits(r *rand.Rand, maxU, maxLen int) []int {
 	n := r.IntN(maxLen + 1)
@@ -514,7 +514,7 @@ func C12(c *ev.Ctx) {
 	// spec -> code
 	nb := c.Pick(300, 5000)
 	depth := c.Pick(25, 50)
-	cfg := fmt.Sprintf("CONSTANTS\n Dirs = {\"d\", \"d1\"}\n Names = {\"a\", \"ab\", \"a.tmp\"}\n Units = {1, 2, 3}\n MaxIno = 8\n MaxFd = 12\n MaxLive = 4\n MaxLen = 5\n D = %d\nINIT Init\nNEXT Next\nINVARIANTS EmitHist\n", depth)
+	cfg := fmt.Sprintf("CONSTANTS\n Dirs = {\"d\", \"d1\"}\n Names = {\"a\", \".a\", \"a.tmp\"}\n Units = {1, 2, 3}\n MaxIno = 8\n MaxFd = 12\n MaxLive = 4\n MaxLen = 5\n D = %d\nINIT Init\nNEXT Next\nINVARIANTS EmitHist\n", depth)
 	_ = os.WriteFile(filepath.Join(dir, "SimFilesys.cfg"), []byte(cfg), 0644)
 	sr := tlc.Run{Dir: dir, Module: "Filesys", Cfg: "SimFilesys.cfg", Workers: 1, Timeout: 15 * time.Minute,
 		Args: []string{"-simulate", fmt.Sprintf("num=%d", nb/4), "-depth", fmt.Sprint(depth + 1), "-seed", fmt.Sprint(c.Seed)}}.Do()
